@@ -194,6 +194,18 @@ var verifWaits int
 
 func verifPollContexts() {}
 
+// verifClockAdvanceTo: natively a blocked read really waits for its deadline (at most 20 s, so that
+// a deadline that is far away shows up as a test timeout).
+func verifClockAdvanceTo(unixMilli int64) {
+	d := time.Until(time.UnixMilli(unixMilli))
+	if d > 20*time.Second {
+		d = 20 * time.Second
+	}
+	if d > 0 {
+		time.Sleep(d)
+	}
+}
+
 // verifSettle lets background goroutines (asynchronous destructors) finish.
 func verifSettle() { time.Sleep(3 * time.Millisecond) }
 func verifSchedPolicy(policy string, free int) {}
